@@ -11,7 +11,9 @@ def check_refinement(ctx, old, res, new, logs, sig, uniform_k=None, marked=None,
     d = old.dim()
     nv_old = old.nvertices
     vol_old = geom.cell_measures(old)
-    vol_new, Tn = geom.basic_validity(ctx, new, sig, ref_scale=vol_old.max())
+    # points of the operand that none of its cells uses (parts of m @ n, files with spare nodes) may stay unused in the result
+    spare = int(old.p.shape[1] - len(np.unique(old.t[:geom.nlocal(old)])))
+    vol_new, Tn = geom.basic_validity(ctx, new, sig, ref_scale=vol_old.max(), allow_unused=spare)
     if any(w in ('unused_vertices',) for w in [f[0]['what'] for f in ctx.failures]):
         return None
     if abs(vol_new.sum() - vol_old.sum()) > 1e-10 * vol_old.sum():
